@@ -23,16 +23,16 @@ PROP = dict(
     model_targets=["Extract/Extract.vo"],
     rule="state-aware random histories (12-61 steps) on real BytesVec / ZeroCopyVec / EagerVec<BytesVec> over usize -> "
          "u64,u8,u32,i64,[u8;3], retention k in 0..6 and 10; profiles C03 (no commits) / C04 (edits, commits with increasing "
-         "and re-used stamps, rollback, rollback_before only from committed states) / C16 (commit-heavy) / Safe (steers clear "
-         "of the known classes) / Wild (plain writes between commits, reset_unsaved, non-increasing stamps: model level only); "
+         "and re-used stamps, rollback, rollback_before only from committed states) / C16 (commit-heavy) / Safe (C04 without "
+         "plain rollback()) / Wild (plain writes between commits, reset_unsaved, non-increasing stamps: model level only); "
          "one case in ten is a BIG history (up to 3000 elements, pushes of 100-1000 values) so that the vector's region leaves its "
          "first reservation and is relocated by rawdb; after every step spec level (len, collect_holed, holes, stamp, result) vs a plain Rust reference vector and model "
          "level (stored_len, real_stored_len, pushed, updated, prev_holes, prev_updated, region lengths, change directory "
          "listing with FNV of every record) vs the extracted Coq model; non-trivial = has edits, a commit and a rollback; "
          "distinct = distinct input line",
     trusted_base=["bytes behind the valid region length are modelled as stale values while the region stays in its first "
-                  "4096-byte reservation; big histories (relocation) end at the first WriteOutOfBounds (known findings 3/4), the only "
-                  "point after which the code reads there"],
+                  "4096-byte reservation; in disciplined histories no read goes there (RvRefine.Inv_no_stale, also after a rollback "
+                  "made the vector longer than the region: since the repair of write() that state is written out like any other)"],
     assumptions=["the abstract rawdb region interface of Vec/RegionSpec.v (refinement by the allocator is C01's obligation)",
                  "C04 quantifies over disciplined histories (RvFindings.op_disciplined): plain write()/flush() only when nothing "
                  "changed since the last commit; rollbacks start from a committed state"],
@@ -49,12 +49,14 @@ TEXT = dict(
     technique="Coq proof (unbounded induction with ghost levels) of commit/rollback + bounded exhaustive theorem + extracted-model differential",
     text=("Proof (Props/C04.v, Vec/RvChain.v; all element types, retention k > 0, unbounded histories): C04_rollback_step, "
           "C04_chain, C04_rollback_before, C04_continuation — every strict history (edits, commits with increasing stamps "
-          "whose record fits 64 bits, rollback / rollback_before from committed states that do not lengthen the vector) "
+          "whose record fits 64 bits, rollback / rollback_before from committed states, including rollbacks of truncating "
+          "commits that leave the vector longer than its region) "
           "agrees with the reference vector after every step; the invariant K (baseline + chain of valid records + "
-          "directory) is re-established by every step.  The full statement over all disciplined histories stays REFUTED by "
-          "the one remaining known class (rollback of a truncating commit, then push / delete of a restored slot, then "
-          "write() -> WriteOutOfBounds with data loss).  C04_continuation_partial (bounded: 177 156 histories, length <= 5, "
-          "retention 1, 2) additionally covers plain write/flush/re-import/reset between commits, which the strict class "
+          "directory) is re-established by every step.  The former known class (findings 3/4: rollback of a truncating commit, "
+          "then push / delete of a restored slot, then write() -> WriteOutOfBounds with data loss) is repaired in write() "
+          "(the region is first extended to stored_len); its witnesses now agree (C04_rollback_of_truncation_histories_agree) "
+          "and no statement excludes the class any more.  C04_continuation_partial (bounded: 177 156 histories, length <= 5, "
+          "retention 1, 2, every disciplined history) additionally covers plain write/flush/re-import/reset between commits, which the strict class "
           "excludes.  The model is validated against the real vectors after every step."),
     note=("Trusted: Coq kernel; extraction and the OCaml driver; the Rust harness.  The Rust code is modelled, not verified."),
 )
